@@ -19,9 +19,17 @@ NA = {
  "C19": "'order-insensitive' refers to the order written in the file (an input permutation); Go's iteration order of the matrix maps cannot change a verdict, and C02 explores it regardless (DESIGN.md section 5)",
 }
 
-PENDING = {p: "claimed in DESIGN.md; its check is still under construction in this commit, so nothing is claimed yet" for p in ["C01","C15","C20"]}
+PENDING = {p: "claimed in DESIGN.md; its check is still under construction in this commit, so nothing is claimed yet" for p in ["C01"]}
 
 CHECKS = {
+ "C15": dict(
+   level=("exploration", "Seeded sweep of the process environment the simulator owns - virtual working directory, path spelling, repository layout (nested, sibling, second repository in the same invocation), argument mode, failing getwd - x generated paths/ignore configurations and -ignore flags, deciding the output against a small reference model (unfiltered list minus applicable matches, order kept; exit status rule). The property has no schedule of its own; what tests pin to one point (one cwd, one spelling) is swept here, with a race lane for the filter code shared by file goroutines.", "DESIGN.md section 4 (C15)"),
+   note="Trusts: virtual disk / virtual cwd facade (os, path/filepath), doublestar and Go regexp as used by the reference model, the unfiltered run as the source of U. Symbolic links are not modelled by the virtual disk.",
+   technique="deterministic simulation of the process environment (virtual disk + cwd, getwd fault) with a reference filter model; seeded search with minimised replay; race-detector lane"),
+ "C20": dict(
+   level=("exploration", "The real process.go protocol (semaphore, WaitGroup, errgroup, callbacks, mutex) runs against simulated shellcheck/pyflakes whose latency, completion order and failures are seeded adversarial choices; decided: expected invocation multiset with sanitised stdin (reference model from the YAML via yaml.v3), one diagnostic per printed issue at the run: key with valid offsets, at every kernel step running processes <= NumCPU, at return nothing alive or uncollected (also on the error path), no deadlock, injected tool failure => fatal error. Interleavings and fault patterns are sampled: exploration.", "DESIGN.md section 4 (C20)"),
+   note="Trusts: simulated os/exec contract (StdinPipe before Start, Output/CombinedOutput, ExitError), tool models (harness/tools.go), simulated clock; scripts over the 64 KiB pipe buffer are not generated.",
+   technique="deterministic simulation: simulated process table + discrete-event clock + seeded scheduler, tool-failure injection, step-wise invariants, reference model of shells/sanitising"),
  "C10": dict(
    level=("exploration", "Seeded search over multi-repository worlds x argument subsets/orders x goroutine schedules of LintFiles x NumCPU, deciding: per-file result == the file linted alone (executable reference), attribution == nearest containing repository (reference model) for every argument order, each callee defect exactly once per run, linearizability of the two caches' concurrent histories (porcupine) for defective callees, immutability of built-in tables and shared configs (reflection fingerprints), absence of data races (the same worlds on the -race build under an invisible baton), no deadlock. Schedules are sampled: exploration.", "DESIGN.md section 4 (C10)"),
    note="Trusts: simulated sync/x-sync/os models; reference models in harness/prop_c10*.go and gen_world.go; race lane can under-report (sync.Pool-mediated edges, TSan history window) but reports are only raised for stacks with actionlint frames on both sides and re-confirmed in fresh processes. Known finding: callee defect consumed by a paths-ignored file (known_findings.json).",
